@@ -168,6 +168,12 @@ def oracle_rotations(case):
     base, _ = _info(cls, seq)
     # the very record object that was typed (and membership-tested) is then rotated with >> / <<
     rec0 = implutil.mk_circular(seq, "r")
+    # an annotation over the first letters of the structure (recognition site, spacer, overhang), as curated
+    # plasmids carry: after `>> k` it may hang over the origin, and typing rotates the record once more
+    from Bio.SeqFeature import SeqFeature, FeatureLocation
+    s0 = matching_starts(cls.structure(), seq)[0]
+    if s0 + 12 <= len(seq):
+        rec0.features.append(SeqFeature(FeatureLocation(s0, s0 + 12, 1), type="misc_feature", qualifiers={"label": ["site"]}))
     cls(rec0).is_valid()
     _ = seq[:3] in rec0
     for k in case["ks"][:12]:
